@@ -2,7 +2,7 @@
    Only statements; every proof is [exact <lemma>]. *)
 From Coq Require Import List NArith ZArith Bool.
 From KV Require Import Lib.Bits Lib.Bytes Lib.Varint Model.Schema Gen.Schemas
-  Proofs.SchemaBase Proofs.SchemaDefs Proofs.SchemaPrims Proofs.SchemaTotal Proofs.SchemaGen Proofs.SchemaC20.
+  Proofs.SchemaBase Proofs.SchemaDefs Proofs.SchemaPrims Proofs.SchemaTotal Proofs.SchemaGen Proofs.SchemaAlloc Proofs.SchemaC20.
 Import ListNotations.
 
 (* For EVERY byte string: ReadResponse returns a message or an error (or reports that the
@@ -41,6 +41,73 @@ Theorem C20_every_registered_type : forall c m input,
 Proof. exact every_registered_type_total. Qed.
 Print Assumptions C20_every_registered_type.
 
+(* ---- "never allocates memory out of proportion to the bytes actually received" ----
+   What holds: every allocation is paid for by frame bytes the decoder goes on to consume, except
+   at most one per nesting level made just before the frame's remaining size is exhausted or an
+   error stops the decode.  Hence, for EVERY byte string, ReadResponse allocates at most
+   2 * K(t) bytes per byte of the DECLARED frame size (K(t): element sizes summed along the
+   deepest nesting path of the schema; at most 217 for the registered types), and with a budget
+   above that it never reports Oom. *)
+Theorem C20_alloc_bounded_by_declared_size : forall c flex t input,
+  schema_ok flex t = true -> bytes_ok input ->
+  let size := get_bes 4 (firstn 4 input) in
+  let K := Z.max 1 (kfac t) in
+  match read_response c flex t input with
+  | Ok _ s' => (zal s' <= 2 * K * Z.max 0 size)%Z
+  | Err _ _ al => (Z.of_N al <= 2 * K * Z.max 0 size)%Z
+  | Oom => (Z.of_N (budget c) < 2 * K * Z.max 0 size)%Z
+  | Panic => True
+  | OutOfFuel => True
+  end.
+Proof. exact response_alloc_bounded. Qed.
+Print Assumptions C20_alloc_bounded_by_declared_size.
+
+(* the invariant behind it, for any value of any type from any decoder state inside a frame *)
+Theorem C20_decode_alloc_accounting : forall c flex t, schema_ok flex t = true ->
+  forall s, small s -> nonneg s -> gab c (N.to_nat (min_size flex t)) (kfac t) s (decode c flex t s).
+Proof. exact decode_gab. Qed.
+Print Assumptions C20_decode_alloc_accounting.
+
+(* The property's clause, under the hypothesis that the whole frame has arrived (then the
+   declared size is at most the bytes received): allocation is proportional to the bytes
+   received.  Without that hypothesis the clause is false: C20_alloc_follows_declared_size_refuted. *)
+Definition C20_alloc_proportional_full_statement : Prop := forall c flex t input,
+  schema_ok flex t = true -> bytes_ok input ->
+  match read_response c flex t input with
+  | Ok _ s' => (zal s' <= 2 * Z.max 1 (kfac t) * Z.of_nat (length input))%Z
+  | Err _ _ al => (Z.of_N al <= 2 * Z.max 1 (kfac t) * Z.of_nat (length input))%Z
+  | Oom => (Z.of_N (budget c) < 2 * Z.max 1 (kfac t) * Z.of_nat (length input))%Z
+  | Panic => True | OutOfFuel => True
+  end.
+
+Theorem C20_alloc_proportional_partial : forall c flex t input,
+  schema_ok flex t = true -> bytes_ok input -> (4 <= length input)%nat ->
+  (4 + get_bes 4 (firstn 4 input) <= Z.of_nat (length input))%Z ->
+  let K := Z.max 1 (kfac t) in
+  match read_response c flex t input with
+  | Ok _ s' => (zal s' <= 2 * K * Z.of_nat (length input))%Z
+  | Err _ _ al => (Z.of_N al <= 2 * K * Z.of_nat (length input))%Z
+  | Oom => (Z.of_N (budget c) < 2 * K * Z.of_nat (length input))%Z
+  | Panic => True
+  | OutOfFuel => True
+  end.
+Proof. exact complete_frame_alloc_proportional. Qed.
+Print Assumptions C20_alloc_proportional_partial.
+
+(* for every message type registered in /repo/protocol today, with the constant computed *)
+Theorem C20_every_registered_type_alloc : forall c m input,
+  In m schemas -> bytes_ok input ->
+  let size := get_bes 4 (firstn 4 input) in
+  match read_response c m.(ms_flex) m.(ms_ty) input with
+  | Ok _ s' => (zal s' <= 2 * KMAX * Z.max 0 size)%Z
+  | Err _ _ al => (Z.of_N al <= 2 * KMAX * Z.max 0 size)%Z
+  | Oom => (Z.of_N (budget c) < 2 * KMAX * Z.max 0 size)%Z
+  | Panic => False
+  | OutOfFuel => False
+  end.
+Proof. exact every_registered_type_alloc. Qed.
+Print Assumptions C20_every_registered_type_alloc.
+
 (* Residual (known finding F8b): allocation is bounded by the DECLARED frame size, not by
    the bytes received.  Fourteen bytes make the decoder ask for 2 GiB. *)
 Theorem C20_alloc_follows_declared_size_refuted :
@@ -48,6 +115,11 @@ Theorem C20_alloc_follows_declared_size_refuted :
     read_response {| budget := 1073741824 |} false t input = Oom.
 Proof. exact alloc_follows_declared_size. Qed.
 Print Assumptions C20_alloc_follows_declared_size_refuted.
+
+(* the full statement is refuted by the same witness: 14 bytes received, 2 * K * 14 = 28 < budget, yet Oom *)
+Theorem C20_alloc_proportional_refuted : ~ C20_alloc_proportional_full_statement.
+Proof. exact alloc_proportional_refuted. Qed.
+Print Assumptions C20_alloc_proportional_refuted.
 
 (* non-vacuity: a response announcing 2^31-1 array elements in 12 bytes is an error, not an allocation *)
 Example C20_example :
